@@ -661,6 +661,27 @@ def adopted_objects_get_settings(ctx: Ctx, rep: Report, rid: str = "R16.22") -> 
                 rep.violation(q, f"{snippet(at[q].test, 50)}: sets {sorted(mine)}", f"an entry adopted by this builder does not get {miss} of its container (the sibling builder {oq} sets it): it keeps the setting it was made with, and the next re-render, regroup or platform change of the ACL reads the entry with a setting that is not the ACL's", where(ctx.func(q), at[q]), inp="Acl('ip access-list extended A', items=[Ace('permit host 10.0.0.1', type='standard')]); acl.group() / acl.platform = 'nxos'")
 
 
+def copies_can_be_equal(ctx: Ctx, rep: Report, rid: str = "R16.26") -> None:
+    """"copy() gives an equal object" needs an equality that looks at the object, not at its identity: every exported
+    class (one with data() and copy()) defines `__eq__` itself or inherits it from a class of the package - a class that
+    falls back to object.__eq__ has `x.copy() == x` False for every x."""
+    rep.rule(rid)
+    n = 0
+    for cn in DATA_CLASSES:
+        cls = ctx.prog.classes.get(cn)
+        if cls is None or cls.lookup_method("copy") is None:
+            continue
+        n += 1
+        rep.instance()
+        eq = cls.lookup_method("__eq__")
+        if eq is not None:
+            rep.ok(f"{cn}.__eq__", f"defined in {eq.cls.name if eq.cls else '?'}", nontrivial=False, where=where(eq))
+        else:
+            cp = cls.lookup_method("copy")
+            rep.violation(f"{cn}", "no __eq__ in the class or its bases", f"{cn} has copy() and data() but compares by identity (object.__eq__): `x.copy() == x` and `{cn}(**x.data()) == x` are False for every x, although text and data are identical", where(cp) if cp is not None else "", inp=f"w = {cn}('10.0.0.0 0.0.0.255'); w.copy() == w  # False")
+    rep.floor(8, "exported classes with copy()") if n else None
+
+
 def block_identity_key_is_unique(ctx: Ctx, rep: Report, rid: str = "R16.25") -> None:
     """The identity (uuid, note, number) that `Acl.group` carries over is found again by something only ONE block has (its
     first entry): block names are not unique - every block made by `AceGroup(text)` and the block of the entries in front
@@ -977,6 +998,7 @@ def run(ctx: Ctx, rep: Report, tier: str) -> None:
     blocks_keep_number(ctx, rep)
     blocks_get_acl_settings(ctx, rep)
     block_identity_key_is_unique(ctx, rep)
+    copies_can_be_equal(ctx, rep)
     dicts_rebuilt_whole(ctx, rep)
     blocks_keep_identity(ctx, rep)
     exporter_reads_own_settings(ctx, rep)
